@@ -24,12 +24,20 @@ InIv(v, iv) == S * v >= 1000000 * iv[1] - TolU /\ S * v <= 1000000 * iv[2] + Tol
 
 Judge(e) ==
   LET n == Len(e.fs)
-      badv == {i \in 1..n : e.eq[i] # 1}
+      badv == {i \in 1..n : e.eq[i] # 1 /\ e.un[i] # 1}
+      \* the operand that holds the minimum reports less than the distance to its own bounding box (a blended union, a
+      \* negative offset): pruning by box distance cannot be exact for it - the recorded limitation, kept apart
+      badu == {i \in 1..n : e.eq[i] # 1 /\ e.un[i] = 1}
+      \* EvaluateSlow itself must be the minimum over the operands AS THEY WERE PASSED (computed by the harness)
+      badr == {i \in 1..n : e.eqr[i] # 1}
       bads == {i \in 1..n : e.fs[i] # 0 /\ e.ss[i] # 0 /\ e.fs[i] # e.ss[i]}
       say(ok, why) == IF ok THEN TRUE ELSE (PrintT(<<"BAD", l, why>>) /\ FALSE)
   IN /\ say(Len(e.ss) = n /\ Len(e.eq) = n /\ (e.ev = "uni" => n = NX(e) * (e.win[4] - e.win[2] + 1)),
             "machinery:wrong-number-of-points")
+     /\ say(Len(e.eqr) = n /\ Len(e.un) = n, "machinery:wrong-number-of-points")
+     /\ (e.kn = 0 => say(badr = {}, IF badr = {} THEN "" ELSE "exhaustive-not-min-of-operands:" \o Where(e, SetMin(badr)) \o "|"))
      /\ (e.kn = 0 => say(badv = {}, IF badv = {} THEN "" ELSE "default-min-value:" \o Where(e, SetMin(badv)) \o "|"))
+     /\ (e.kn = 0 => say(badu = {}, IF badu = {} THEN "" ELSE "default-min-value-undercut:" \o Where(e, SetMin(badu)) \o "|"))
      /\ (e.kn # 0 => say(bads = {}, IF bads = {} THEN "" ELSE "blend-sign:" \o Where(e, SetMin(bads)) \o "|"))
      /\ (e.ev = "uni" =>
            /\ say(\A i \in 1..n : InIv(e.sv[i], UnionAll(e.ops, WPt(e, i), e.kn, e.kd)),
